@@ -4,9 +4,11 @@
    field during roll-back, CAS clear of the initial field, finish, free chunk by chunk), any number of threads.  Tie: the real functions
    are checked step by step against the sequential specification MiVerif/Model/BitSeq.lean (every successful claim sets exactly a
    previously clear run, every failed claim leaves the bitmap unchanged, every unclaim clears exactly its run), which is the sequential
-   projection of the model (theorems `seq_claim` / `seq_free` below); concurrent executions of the real arena functions are searched under
-   the deterministic scheduler (disjointness, containment, nothing left claimed, whole arena allocatable again). -/
-import MiVerif.Model.BitmapC
+   projection of the model (theorems `seq_claim` / `seq_free` below); for concurrent executions the log of every atomic operation on the
+   arena's in-use bitmap, recorded from the hooked allocator under the deterministic scheduler, is replayed through the executable
+   validator `BitmapC.exec` (proved sound: an accepted log is a model execution, theorem `validated_traces_satisfy_invariant`), and the
+   end states are checked (disjointness, containment, nothing left claimed, whole arena allocatable again). -/
+import MiVerif.Model.BitmapCExec
 import MiVerif.Gen.Arith
 
 namespace C14
@@ -31,6 +33,9 @@ theorem claims_disjoint_reachable {s s' : St} (h : Inv s) (hs : Steps s s') (i :
     (a failed or rolled-back claim leaves nothing behind) -/
 theorem nothing_left_reserved {s s' : St} (h : Inv s) (hs : Steps s s') (hn : s'.owns = []) (i : Nat) : s'.bits i = false :=
   all_free_again (inv_reachable h hs) hn i
+
+/-- every log accepted by the executable validator is an execution of the model: the invariant holds in every state along it -/
+theorem validated_traces_satisfy_invariant {s s' : St} {ls : List Lbl} (hi : Inv s) (h : run s ls = some s') : Inv s' := run_inv hi h
 
 /-- the empty bitmap satisfies the invariant -/
 theorem empty_inv : Inv { bits := fun _ => false, owns := [] } := ⟨fun i => by simp, fun o ho => by cases ho⟩
